@@ -24,7 +24,11 @@ def c10_units(valid):
     attempt (the Valve plans of Spec/ValveFaults.lean: Attempt.got; theorems C10_theship_query_*)"""
     ch = [int(x) for x in valid.tags["CH"].split(",")]
     seg = valid.seg()
-    return [0, 1, 2] + [3 + k for k in range(3) if seg[k] - ch[k] >= 2]
+    # (replies of 2-4 fragments, at most C10_BASE_CAP bases per unit: see props/families/valve.py)
+    return [0, 1, 2] + [3 + k for k in range(3) if 2 <= seg[k] - ch[k] <= 4]
+
+
+C10_BASE_CAP = {3: 10, 4: 10, 5: 10}
 
 
 def _got(i, frags):
